@@ -11,6 +11,7 @@ package racesim
 
 import (
 	"bytes"
+	"crypto/cipher"
 	"crypto/sha256"
 	"fmt"
 	"os"
@@ -111,7 +112,8 @@ type world struct {
 	ps     pairing.Suite
 	P, Q   kyber.Point // shared points, left in non-normalised internal form
 	s, s2  kyber.Scalar
-	A1, A2 kyber.Point // G1/G2 operands of a pairing
+	u      kyber.Scalar // a scalar that came in as BYTES (a decoded value, or a freshly generated key): possibly not in reduced form
+	A1, A2 kyber.Point  // G1/G2 operands of a pairing
 	// schemes (Ed25519 / pairing suite dependent)
 	edSuite *edwards25519.SuiteEd25519
 	schPub  kyber.Point
@@ -158,6 +160,29 @@ func newWorld(gr grp, seed []byte) *world {
 	}
 	g := w.g
 	w.s, w.s2 = sc(g, seed, 1), sc(g, seed, 2)
+	// shared scalars are not only results of arithmetic: keys are generated (Ed25519 keys are clamped,
+	// not reduced) and scalars are decoded from the wire (the Ed25519 decoder accepts any 32 bytes).
+	// Seed C20e: Equal reduced a non-canonical operand in place.
+	w.u = w.s.Clone()
+	try(func() {
+		if kg, ok := g.(interface {
+			NewKey(stream cipher.Stream) kyber.Scalar
+		}); ok && seed[0]&1 == 0 {
+			w.u = kg.NewKey(g.(interface{ XOF([]byte) kyber.XOF }).XOF(seed))
+			return
+		}
+		h := sha256.Sum256(append([]byte("noncanonical"), seed...))
+		if g.ScalarLen() <= len(h) {
+			b := h[:g.ScalarLen()]
+			for i := range b {
+				b[i] |= 0xf0 // large in either byte order
+			}
+			x := g.Scalar()
+			if x.UnmarshalBinary(b) == nil {
+				w.u = x
+			}
+		}
+	})
 	if gr.which == 3 {
 		a := w.ps.G1().Point().Mul(sc(w.ps.G1(), seed, 3), nil)
 		b := w.ps.G2().Point().Mul(sc(w.ps.G2(), seed, 4), nil)
@@ -276,6 +301,10 @@ var calls = []call{
 	{"s.String", always, func(w *world) []byte { return []byte(w.s.String()) }, false},
 	{"s.Equal(s2)", always, func(w *world) []byte { return []byte(fmt.Sprint(w.s.Equal(w.s2), w.s.Equal(w.s))) }, false},
 	{"s.Clone", always, func(w *world) []byte { return encS(w.s.Clone()) }, false},
+	{"u.Equal(s)", always, func(w *world) []byte { return []byte(fmt.Sprint(w.u.Equal(w.s), w.s.Equal(w.u), w.u.Equal(w.u))) }, false},
+	{"u.MarshalBinary+String", always, func(w *world) []byte { return append(encS(w.u), []byte(w.u.String())...) }, false},
+	{"u.Clone", always, func(w *world) []byte { return encS(w.u.Clone()) }, false},
+	{"local.Mul(u,P)", always, func(w *world) []byte { return enc(w.g.Point().Mul(w.u, w.P)) }, false},
 	{"local.ScalarOps(s,s2)", always, func(w *world) []byte {
 		a := w.g.Scalar().Add(w.s, w.s2)
 		m := w.g.Scalar().Mul(w.s, w.s2)
